@@ -144,6 +144,49 @@ fn main() {
           Err(_) => println!("lb wait BLOCKED peers={} hook_fired={}", lb.connection_count(), fired.load(std::sync::atomic::Ordering::SeqCst)),
         }
       }
+      "req_send_race" => {
+        // schedule from the solver: both callers read ReadyToSend before either writes ExpectingReply.
+        // Public API only (REQ connected to a REP over inproc); the schedule point parks each caller after its
+        // state check until the other has arrived too (or 400 ms passed).
+        use rzmq::verif_facade::set_sched_hook;
+        use std::sync::atomic::{AtomicUsize, Ordering};
+        let rt = tokio::runtime::Builder::new_multi_thread().worker_threads(4).enable_all().build().unwrap();
+        let arrived = std::sync::Arc::new(AtomicUsize::new(0));
+        let a2 = arrived.clone();
+        let (oks, errs, at_point) = rt.block_on(async move {
+          let ctx = rzmq::Context::new().unwrap();
+          let rep = ctx.socket(rzmq::SocketType::Rep).unwrap();
+          let req = ctx.socket(rzmq::SocketType::Req).unwrap();
+          rep.bind("inproc://verif-req-race").await.unwrap();
+          req.connect("inproc://verif-req-race").await.unwrap();
+          tokio::time::sleep(Duration::from_millis(150)).await;
+          set_sched_hook(Some(Box::new(move |point: &str| {
+            if point == "ReqSocket::send:after-check" {
+              a2.fetch_add(1, Ordering::SeqCst);
+              let t0 = std::time::Instant::now();
+              while a2.load(Ordering::SeqCst) < 2 && t0.elapsed() < Duration::from_millis(400) {
+                std::thread::yield_now();
+              }
+            }
+          })));
+          let mut hs = Vec::new();
+          for i in 0..2u8 {
+            let r = req.clone();
+            hs.push(tokio::spawn(async move { tokio::time::timeout(Duration::from_millis(1500), r.send(rzmq::Msg::from_vec(vec![i]))).await }));
+          }
+          let (mut oks, mut errs) = (0, 0);
+          for h in hs {
+            match h.await.unwrap() {
+              Ok(Ok(())) => oks += 1,
+              _ => errs += 1,
+            }
+          }
+          set_sched_hook(None);
+          (oks, errs, arrived.load(Ordering::SeqCst))
+        });
+        println!("req_send_race ok={} err={} reached_point={}", oks, errs, at_point);
+        std::mem::forget(rt);
+      }
       "send_multipart_frames" => {
         // public API only: PUSH socket, send_multipart with N empty frames (no peer needed to reach the conversion)
         let n: usize = it.next().unwrap().parse().unwrap();
